@@ -70,14 +70,14 @@ def handleMp4 (kv : KV) : String :=
       | some (a, n) => some s!"media-payload-read-at-{a}+{n}"
       | none =>
         if read > readBound then some s!"bytes-read-{read}-exceed-metadata-plus-lookahead-{readBound}"
-        else if mdlen > 2 * max + 1024 + 64 then some "returned-metadata-exceeds-twice-the-limit"
+        else if mdlen > 2 * (max + 1024 + 32) then some "returned-metadata-exceeds-twice-the-limit"
         else if peak > 4 * max + 65536 then some "peak-heap-exceeds-four-times-the-limit"
         else none
     match spec with
     | some w =>
       let cls := if w.startsWith "media-payload" then "media-payload-read" else if w.startsWith "bytes-read" then "bytes-read-exceed-bound" else w
       -- the padding path: which arm produced the oversized output
-      let sig := if (cls == "returned-metadata-exceeds-twice-the-limit" || cls == "peak-heap-exceeds-four-times-the-limit") && res.startsWith "ok:md" && mdlen > 2 * max + 1024 + 64
+      let sig := if (cls == "returned-metadata-exceeds-twice-the-limit" || cls == "peak-heap-exceeds-four-times-the-limit") && res.startsWith "ok:md" && mdlen > 2 * (max + 1024 + 32)
                  then "C10:padding-larger-than-limit" else s!"C10:{cls}"
       s!"SPEC {id} which={w} sig={sig} res={res} alt={alt} max={max} mdlen={mdlen} read={read} peak={peak}"
     | none =>
